@@ -40,6 +40,7 @@ type EvalCtx struct {
 	Heap    *HeapState
 	Old     *HeapState
 	InOld   bool
+	Entry   map[string]Val // parameter values at function entry: what `old(param)` denotes inside loops
 	depth   int
 }
 
@@ -215,6 +216,16 @@ func (c *EvalCtx) eval(e ast.Expr) Val {
 	case *ast.SliceExpr:
 		return c.evalSlice(n)
 	case *ast.UnaryExpr:
+		if n.Op == token.AND {
+			l, err := c.evalLoc(n.X)
+			if err != nil {
+				evalFail("%v", err)
+			}
+			if !l.Root || len(l.Chain) != 0 {
+				evalFail("address of a location that is not an object")
+			}
+			return Val{T: []Term{l.Ref}, Typ: types.NewPointer(l.T), Loc: l}
+		}
 		x := c.eval(n.X)
 		if x.Typ == nil && x.Lazy != nil && (n.Op == token.SUB || n.Op == token.XOR) {
 			inner, op := x.Lazy, n.Op
@@ -263,6 +274,11 @@ func (c *EvalCtx) evalIdent(n *ast.Ident) Val {
 	}
 	if v, ok := c.Vars[n.Name]; ok {
 		return v
+	}
+	if c.InOld && c.Entry != nil {
+		if v, ok := c.Entry[n.Name]; ok {
+			return v
+		}
 	}
 	if c.Lookup != nil {
 		if v, ok := c.Lookup(n.Name); ok {
